@@ -20,16 +20,16 @@ Proof. intros w r v r' f H Hf. destruct (pcomplete_all w) as [Hc _]. apply Hc; a
 (* ---------------- strings: no proper prefix of a string body ends the string ---------------- *)
 Lemma sbody_prefix_free : forall w sb s, SBody w sb s -> forall z d, SBody w (sb ++ jc_quote :: z) d -> False.
 Proof.
-  intros w sb s H. induction H as [| c t d0 Hc HS IH | ch v t d0 Hv HS IH | ch h1 h2 h3 h4 t d0 Hn Hu Hh HS IH
-                                   | ch h1 h2 h3 h4 x1 x2 l1 l2 l3 l4 t d0 Hn Hu Hh HS IH]; intros z d H2; cbn [app] in H2.
+  intros w sb s H. induction H as [| c t d0 Hc HS IH | ch v t d0 Hv HS IH | ch h1 h2 h3 h4 t d0 Hn Hu Hx Hh HS IH
+                                   | ch h1 h2 h3 h4 ch2 l1 l2 l3 l4 t d0 Hn Hu Hx Hh Hu2 Hx2 HS IH]; intros z d H2; cbn [app] in H2.
   - inversion H2; subst; try discriminate.
   - inversion H2; subst; try (eapply IH; eassumption); try (unfold raw_ok in Hc; rewrite N.eqb_refl in Hc; cbn in Hc; rewrite ?andb_false_r in Hc; discriminate).
   - inversion H2; subst; try (eapply IH; eassumption); try congruence.
-    unfold raw_ok in H1. rewrite N.eqb_refl in H1. cbn in H1. rewrite ?andb_false_r in H1. discriminate.
+    match goal with Hr : raw_ok jc_bslash = true |- _ => discriminate Hr end.
   - inversion H2; subst; try (eapply IH; eassumption); try congruence.
-    unfold raw_ok in H1. rewrite N.eqb_refl in H1. cbn in H1. rewrite ?andb_false_r in H1. discriminate.
+    match goal with Hr : raw_ok jc_bslash = true |- _ => discriminate Hr end.
   - inversion H2; subst; try (eapply IH; eassumption); try congruence.
-    unfold raw_ok in H1. rewrite N.eqb_refl in H1. cbn in H1. rewrite ?andb_false_r in H1. discriminate.
+    match goal with Hr : raw_ok jc_bslash = true |- _ => discriminate Hr end.
 Qed.
 
 (* a truncated string token is not a string: UnEscape<true> needs the closing quote (D61) *)
